@@ -29,7 +29,7 @@ THEOREMS_REMESH = [
     "swapEdge_translate", "removeElongated_translate", "rebase_translate", "refineMesh_translate", "refineMesh_translate_components",
     "refineLive_translate", "tet_live", "tet_three_splits",
     "closed_of_closedB", "forceStage_translate", "meshStage_translate", "cellIterationR_translate", "cellRunR_translate",
-    "cellRunR_observables", "stepOkR_translate", "domainR_translate", "tetR_stepOk", "tetR_splits"]
+    "cellRunR_observables", "stepOkR_translate", "domainR_translate", "cellIterationR_eq_cellIteration", "band_of_inBand", "tetR_stepOk", "tetR_splits"]
 GEN_REMESH = ["RemeshConsts", "Schedule", "Forces", "Integrator", "CellCycle"]
 MAX_ULPS = 0
 SIZE = 1e-5
